@@ -24,7 +24,7 @@ ASSUMPTIONS = ["computeAll is generated only when every stored element has been 
                "values of elements the model regards as not computed are not judged (only that the call does not crash)",
                "chi itself is C02's business: the direct object is the oracle here"]
 CONFIG = {
-    "quick": {"flavours": ["real", "complex"], "shards": 8, "examples": 300, "min_nontrivial": 500, "budget_s": 110},
+    "quick": {"flavours": ["real", "complex"], "shards": 8, "examples": 800, "min_nontrivial": 500, "budget_s": 120},
     "thorough": {"flavours": ["real", "complex"], "shards": 16, "examples": 1200, "min_nontrivial": 3000, "budget_s": 3300},
 }
 REQUIRED_CLASSES = {"quick": ["refill-different-set", "alias-evaluated", "on-demand-after-bulk", "split", "nosplit", "default-all"],
